@@ -156,8 +156,43 @@ func main() {
 			}
 		}
 	}
+	// the real side runs in this process: a case that never returns (a deadlock or a spin in the code under
+	// verification) would hang the whole check. A watchdog reports it as a finding, with what identifies the
+	// case (the cases are regenerated from the seed), and ends the run
+	progress := make(chan int, 1024)
+	go func() {
+		last := -1
+		for {
+			select {
+			case i, ok := <-progress:
+				if !ok {
+					return
+				}
+				last = i
+			case <-time.After(60 * time.Second):
+				os.Stdout = saved
+				rep.Mismatches = 1
+				rep.Findings = []propFinding{{"real-code-hangs/" + m.name,
+					fmt.Sprintf("case #%d of seed %d: the real code did not return within 60 s (deadlock or spin inside the function under comparison)", last+1, *seed),
+					fmt.Sprintf("<rlv-diff -model %s -seed %d -n %d : the last case>", m.name, *seed, last+2)}}
+				rep.BySig = map[string]int{"real-code-hangs/" + m.name: 1}
+				rep.WallS = time.Since(t0).Seconds()
+				b, _ := json.MarshalIndent(rep, "", " ")
+				if *out != "" {
+					os.WriteFile(*out, b, 0o644)
+				} else {
+					fmt.Println(string(b))
+				}
+				os.Exit(1)
+			}
+		}
+	}()
 	for i := 0; i < *n; i++ {
 		line, real, class := m.gen(rng)
+		select {
+		case progress <- i:
+		default:
+		}
 		if line == "" {
 			continue
 		}
@@ -172,6 +207,7 @@ func main() {
 			rep.Distinct++
 		}
 	}
+	close(progress)
 	os.Stdout = saved
 	if *dump != "" {
 		var sb strings.Builder
